@@ -493,6 +493,15 @@ func (r *c13Run) do(w int, k int, op c13Op, record bool) {
 			o.Err = err.Error()
 		} else {
 			o.Hash = hs(c)
+			// what was published: the heads the manifest names
+			if node, gerr := r.api.Dag().Get(ctx, c); gerr == nil {
+				if jl, derr := l.IO().DecodeRawJSONLog(node); derr == nil {
+					for _, h := range jl.Heads {
+						o.Heads = append(o.Heads, hs(h))
+					}
+					o.Found = true
+				}
+			}
 		}
 	default:
 		panic("unknown op " + op.Kind)
@@ -881,6 +890,25 @@ func (r *c13Run) evaluate(prop string) []monitorFailure {
 			if len(o.Heads) == 0 {
 				fail("read-heads", prop+":read:heads", tag+"no heads on a non-empty log")
 			}
+		case "multihash":
+			// a publication names a state the log had during the call: every append that had returned
+			// before it began is in the history of the heads it names
+			if bounded || o.Err != "" || !o.Found {
+				break
+			}
+			covered := map[string]bool{}
+			for _, h := range o.Heads {
+				covered[h] = true
+				for p := range g.past(h) {
+					covered[p] = true
+				}
+			}
+			for _, a := range apps {
+				if a.End < o.Start && !covered[a.Hash] {
+					fail("read-manifest", prop+":read:manifest", tag+fmt.Sprintf("the manifest %s names heads %v; append %s had returned before the publication began and is not in their history", o.Hash, o.Heads, a.Hash))
+					break
+				}
+			}
 		case "get", "has":
 			if !o.Found && !bounded {
 				fail("read-get", prop+":read:get", tag+"an entry appended before the run was not found")
@@ -1136,6 +1164,22 @@ func runC13(seed int64, tier string, outDir string) *result {
 			}
 			c.Workers = append(c.Workers, ops)
 		}
+		t.runCase(c)
+	}
+
+	// 5. publications overlapping each other and appends on a slow store: a publication that begins after
+	//    an append returned names that append, also when another publication is still being written
+	for i := 0; i < 2; i++ {
+		c := c13Case{Scenario: "random", Mode: "free", Seed: seed*104729 + int64(i), SlowIO: true}
+		var app, pubA, pubB []c13Op
+		for k := 0; k < 3; k++ {
+			app = append(app, c13Op{Kind: "pause", Arg: 300 + 100*i}, c13Op{Kind: "append"}) // pause unit: 100 us
+		}
+		for k := 0; k < 5; k++ {
+			pubA = append(pubA, c13Op{Kind: "multihash"})
+			pubB = append(pubB, c13Op{Kind: "pause", Arg: 600}, c13Op{Kind: "multihash"})
+		}
+		c.Workers = [][]c13Op{app, pubA, pubB}
 		t.runCase(c)
 	}
 
